@@ -1125,6 +1125,18 @@ func registerRegexp(in map[string]intrinsic) {
 		p.unsupported("(*regexp.Regexp).ReplaceAllFunc for this pattern on non-ASCII symbolic data")
 		return nil, true
 	}
+	in["(*regexp.Regexp).FindString"] = func(p *Path, _ *frame, _ *ssa.Function, a []value) (value, bool) {
+		r := re(p, a[0])
+		if rep, ok := subj(p, r, a[1]); ok && r != nil {
+			m := r.FindStringIndex(rep)
+			if m == nil {
+				return "", true
+			}
+			return strSlice(a[1], m[0], m[1]), true
+		}
+		p.unsupported("FindString on non-ASCII symbolic data")
+		return nil, true
+	}
 	in["(*regexp.Regexp).FindStringSubmatch"] = func(p *Path, _ *frame, _ *ssa.Function, a []value) (value, bool) {
 		r := re(p, a[0])
 		if rep, ok := subj(p, r, a[1]); ok && r != nil {
